@@ -141,6 +141,10 @@ class GraphicalModel:
         kopy = self.__class__()
         # Copy the source net
         kopy.source_net = nx.DiGraph(self.source_net)
+        # The copy above is shallow, give the copy its own node states
+        for _, data in kopy.source_net.nodes(data=True):
+            if 'attr_dict' in data:
+                data['attr_dict'] = data['attr_dict'].copy()
         return kopy
 
     def __copy__(self, *args, **kwargs):
